@@ -29,6 +29,10 @@ pub enum Ty {
     Object(String),
     Arr(Box<Ty>, u64),
     Struct(Vec<Ty>),
+    /// `$k` / `c$k`: the type *named* by entry `k` of the request's type table (an earlier entry), i.e. the same
+    /// struct definition (same `StructId`), not a copy of it; `true` = spelled with `const` in front.
+    /// Only in `C19.prog` requests.
+    Ref(usize, bool),
 }
 
 const OBJECTS: &[&str] = &["Texture2D", "SamplerState", "ByteAddressBuffer", "RWTexture3D"];
@@ -51,6 +55,7 @@ pub fn show(t: &Ty) -> String {
         Ty::Enum(true) => "eu".into(),
         Ty::Arr(t, n) => format!("[{} {}]", n, show(t)),
         Ty::Struct(ms) => format!("{{{}}}", ms.iter().map(show).collect::<Vec<_>>().join(" ")),
+        Ty::Ref(k, c) => format!("{}${}", if *c { "c" } else { "" }, k),
     }
 }
 
@@ -75,14 +80,15 @@ fn tokens(s: &str) -> Vec<String> {
     out
 }
 
-fn parse_ty(toks: &[String], i: &mut usize) -> Option<Ty> {
+/// `limit` = number of table entries a `$k` may refer to (the index of the entry being parsed)
+fn parse_ty(toks: &[String], i: &mut usize, limit: usize) -> Option<Ty> {
     let t = toks.get(*i)?.clone();
     *i += 1;
     match t.as_str() {
         "{" => {
             let mut ms = Vec::new();
             while toks.get(*i)? != "}" {
-                ms.push(parse_ty(toks, i)?);
+                ms.push(parse_ty(toks, i, limit)?);
             }
             *i += 1;
             Some(Ty::Struct(ms))
@@ -90,7 +96,7 @@ fn parse_ty(toks: &[String], i: &mut usize) -> Option<Ty> {
         "[" => {
             let n: u64 = toks.get(*i)?.parse().ok()?;
             *i += 1;
-            let e = parse_ty(toks, i)?;
+            let e = parse_ty(toks, i, limit)?;
             if toks.get(*i)? != "]" {
                 return None;
             }
@@ -99,6 +105,18 @@ fn parse_ty(toks: &[String], i: &mut usize) -> Option<Ty> {
         }
         "ei" => Some(Ty::Enum(false)),
         "eu" => Some(Ty::Enum(true)),
+        w if w.starts_with('$') || w.starts_with("c$") => {
+            let c = w.starts_with('c');
+            let digits = &w[if c { 2 } else { 1 }..];
+            if digits.is_empty() || !digits.chars().all(|d| d.is_ascii_digit()) {
+                return None;
+            }
+            let k: usize = digits.parse().ok()?;
+            if k >= limit {
+                return None;
+            }
+            Some(Ty::Ref(k, c))
+        }
         w if w.starts_with('@') && OBJECTS.contains(&&w[1..]) => Some(Ty::Object(w[1..].to_string())),
         w if w.starts_with('?') && w.len() > 1 && w[1..].chars().all(|c| c.is_ascii_alphanumeric() || c == '_') => {
             Some(Ty::Undeclared(w[1..].to_string()))
@@ -124,17 +142,90 @@ fn parse_ty(toks: &[String], i: &mut usize) -> Option<Ty> {
 }
 
 pub fn parse_types(s: &str) -> Option<Vec<Ty>> {
+    parse_table(s, false)
+}
+
+/// a type list; with `refs` an entry may mention earlier entries as `$k` / `c$k`
+pub fn parse_table(s: &str, refs: bool) -> Option<Vec<Ty>> {
     let mut out = Vec::new();
-    for part in s.split(';') {
+    for (k, part) in s.split(';').enumerate() {
         let toks = tokens(part);
         let mut i = 0;
-        let t = parse_ty(&toks, &mut i)?;
+        let t = parse_ty(&toks, &mut i, if refs { k } else { 0 })?;
         if i != toks.len() {
+            return None;
+        }
+        // `const` is not a valid modifier of a field: `c$k` only as a whole entry
+        fn const_ref_below(t: &Ty, top: bool) -> bool {
+            match t {
+                Ty::Ref(_, c) => *c && !top,
+                Ty::Arr(e, _) => const_ref_below(e, false),
+                Ty::Struct(ms) => ms.iter().any(|m| const_ref_below(m, false)),
+                _ => false,
+            }
+        }
+        if const_ref_below(&t, true) {
             return None;
         }
         out.push(t);
     }
     Some(out)
+}
+
+/// the structure an entry denotes: every `$k` replaced by (the expansion of) entry `k`. The reference calculators
+/// and the oracle only ever see expanded types: a layout is a function of the structure alone.
+pub fn expand(t: &Ty, table: &[Ty]) -> Ty {
+    match t {
+        Ty::Ref(k, _) => match table.get(*k) {
+            Some(e) => expand(e, &table[..*k]),
+            None => Ty::Undeclared("missing_entry".into()),
+        },
+        Ty::Arr(e, n) => Ty::Arr(Box::new(expand(e, table)), *n),
+        Ty::Struct(ms) => Ty::Struct(ms.iter().map(|m| expand(m, table)).collect()),
+        other => other.clone(),
+    }
+}
+
+pub fn expand_table(table: &[Ty]) -> Vec<Ty> {
+    (0..table.len()).map(|k| expand(&table[k], &table[..k])).collect()
+}
+
+fn refers_to(t: &Ty, k: usize) -> bool {
+    match t {
+        Ty::Ref(j, _) => *j == k,
+        Ty::Arr(e, _) => refers_to(e, k),
+        Ty::Struct(ms) => ms.iter().any(|m| refers_to(m, k)),
+        _ => false,
+    }
+}
+
+fn count_refs(t: &Ty, hist: &mut Hist) {
+    match t {
+        Ty::Ref(_, c) => hist.add(if *c { "ref:const" } else { "ref:plain" }),
+        Ty::Arr(e, _) => {
+            if matches!(**e, Ty::Ref(..)) {
+                hist.add("ref:array-element");
+            }
+            count_refs(e, hist)
+        }
+        Ty::Struct(ms) => {
+            let n = ms.iter().filter(|m| matches!(m, Ty::Ref(..))).count();
+            if n >= 2 {
+                hist.add("ref:several-in-one-struct");
+            }
+            ms.iter().for_each(|m| count_refs(m, hist))
+        }
+        _ => {}
+    }
+}
+
+fn mentions_ref(t: &Ty) -> bool {
+    match t {
+        Ty::Ref(..) => true,
+        Ty::Arr(e, _) => mentions_ref(e),
+        Ty::Struct(ms) => ms.iter().any(mentions_ref),
+        _ => false,
+    }
 }
 
 // ------------------------------------------------------------------------------------------------
@@ -163,6 +254,10 @@ struct Src {
     /// 0 = plain spelling; otherwise the seed of the spelling choices (typedef, namespace, template struct,
     /// base struct, method, `dword`, `vector<T, n>`, `matrix<T, r, c>`): the layout must not depend on them
     style: u64,
+    /// `C19.prog`: the name each finished entry of the type table goes by (what `$k` is spelled as) and the line a
+    /// diagnostic located at that entry's struct definition points at
+    entry_names: Vec<String>,
+    entry_lines: Vec<usize>,
 }
 
 impl Src {
@@ -180,6 +275,12 @@ impl Src {
     /// spelling of a type: (modifier prefix of a member declaration, type name, array suffix)
     fn spell(&mut self, t: &Ty) -> (String, String, String) {
         match t {
+            // the entry's own name: the same definition, whatever else was declared in between
+            Ty::Ref(k, c) => (
+                if *c { "const ".to_string() } else { String::new() },
+                self.entry_names.get(*k).cloned().unwrap_or_else(|| "missing_entry".into()),
+                String::new(),
+            ),
             Ty::Undeclared(n) => (String::new(), n.clone(), String::new()),
             Ty::Object(n) => (
                 String::new(),
@@ -300,6 +401,15 @@ impl Src {
     /// a name usable as a template argument for the type (arrays go through a typedef), and the 1-based line
     /// a diagnostic located at the type's definition points at (meaningful for structs only)
     fn top(&mut self, t: &Ty) -> (String, usize) {
+        if let Ty::Ref(k, c) = t {
+            // another spelling of entry k: a typedef (the same type id), or a typedef of `const` entry k (the type id
+            // of the const-qualified type); a diagnostic located at the type points at entry k's definition
+            let id = self.next;
+            self.next += 1;
+            let base = self.entry_names.get(*k).cloned().unwrap_or_else(|| "missing_entry".into());
+            self.lines.push(format!("typedef {}{} R{};", if *c { "const " } else { "" }, base, id));
+            return (format!("R{}", id), self.entry_lines.get(*k).copied().unwrap_or(0));
+        }
         let (_pre, base, suffix) = self.spell(t);
         let def_line = self.lines.len();
         if suffix.is_empty() {
@@ -315,7 +425,7 @@ impl Src {
 
 /// program text and, per request type, the 1-based line a diagnostic about it points at
 pub fn source(usage: &str, tys: &[Ty]) -> (String, Vec<usize>) {
-    let mut s = Src { lines: Vec::new(), next: 0, style: 0 };
+    let mut s = Src { lines: Vec::new(), next: 0, style: 0, entry_names: Vec::new(), entry_lines: Vec::new() };
     let mut blame = Vec::new();
     let mut names = Vec::new();
     for t in tys {
@@ -531,7 +641,8 @@ fn scalar_bytes(rule: Rule, c: char) -> Option<u64> {
 fn reference(rule: Rule, t: &Ty, path: &str, top: bool) -> Option<(u64, u64, Vec<(String, u64)>, bool, bool)> {
     // (size, align, fields, self_tail_pad, inner_tail_pad)
     match t {
-        Ty::Undeclared(_) | Ty::Object(_) => None,
+        // (the calculators are only called on expanded types)
+        Ty::Undeclared(_) | Ty::Object(_) | Ty::Ref(..) => None,
         Ty::Scalar(c) => {
             let b = scalar_bytes(rule, *c)?;
             Some((b, b, vec![], false, false))
@@ -907,7 +1018,7 @@ pub fn parse_prog(f: &[&str]) -> Option<Prog> {
         return None;
     }
     let style: u64 = h[2].parse().ok()?;
-    let tys = parse_types(f[2])?;
+    let tys = parse_table(f[2], true)?;
     let mut sites = Vec::new();
     for part in f[3].split(',') {
         let (lhs, k) = part.split_once('@')?;
@@ -940,7 +1051,12 @@ pub fn parse_prog(f: &[&str]) -> Option<Prog> {
             _ => false,
         }
     }
-    for (k, t) in tys.iter().enumerate() {
+    let expanded = expand_table(&tys);
+    for (k, t) in expanded.iter().enumerate() {
+        // (`void` cannot be referred to either: a reference makes the entry `mention` void without being it)
+        if mentions_void(t) && mentions_ref(&tys[k]) {
+            return None;
+        }
         if mentions_void(t) {
             let fine = *t == Ty::Scalar('v')
                 && sites.iter().filter(|s| s.ty == k).all(|s| {
@@ -962,11 +1078,13 @@ struct ProgLines {
 }
 
 fn prog_source(p: &Prog) -> (String, ProgLines) {
-    let mut s = Src { lines: Vec::new(), next: 0, style: p.style };
+    let mut s = Src { lines: Vec::new(), next: 0, style: p.style, entry_names: Vec::new(), entry_lines: Vec::new() };
     let mut names = Vec::new();
     let mut type_line = Vec::new();
     for t in &p.tys {
         let (n, l) = s.top(t);
+        s.entry_names.push(n.clone());
+        s.entry_lines.push(l);
         names.push(n);
         type_line.push(l);
     }
@@ -1147,19 +1265,21 @@ fn run_prog(p: &Prog, out: &mut Out, hist: &mut Hist) {
         Real::Error(_) => "error".to_string(),
         Real::Panic(m) => format!("panic:{}", m.splitn(2, ": ").nth(1).unwrap_or(m)),
     };
+    // the oracle judges structures: every `$k` is replaced by what it names
+    let xt = expand_table(&p.tys);
     let uses: Vec<Use> = p
         .sites
         .iter()
         .filter_map(|s| {
-            property_site(s).map(|c| Use { ty: &p.tys[s.ty], site_class: c, what: format!("[{}]", show_site(s)) })
+            property_site(s).map(|c| Use { ty: &xt[s.ty], site_class: c, what: format!("[{}]", show_site(s)) })
         })
         .collect();
     let blamed = match line {
         Some(l) => {
             if let Some(i) = lines.site_line.iter().position(|x| *x == l) {
-                Blamed::Type(&p.tys[p.sites[i].ty])
+                Blamed::Type(&xt[p.sites[i].ty])
             } else if let Some(k) = lines.type_line.iter().position(|x| *x == l) {
-                Blamed::Type(&p.tys[k])
+                Blamed::Type(&xt[k])
             } else {
                 Blamed::Unlocated
             }
@@ -1167,7 +1287,7 @@ fn run_prog(p: &Prog, out: &mut Out, hist: &mut Hist) {
         None => Blamed::Unlocated,
     };
     // with several types and no location the blamed one is not a structure (structures always have one)
-    let all: Vec<Ty> = p.tys.clone();
+    let all: Vec<Ty> = xt.clone();
     let (orc, class) = judge(&uses, &all, blamed, &real);
     if std::env::var("C19_DEBUG").is_ok() {
         eprintln!("--- {}\n{}", req, src);
@@ -1185,10 +1305,13 @@ fn run_prog(p: &Prog, out: &mut Out, hist: &mut Hist) {
             hist.add(&format!("wrap:{}", s.wrap));
         }
     }
-    for t in &p.tys {
+    for (k, t) in xt.iter().enumerate() {
         hist.add(&format!("depth:{}", depth(t)));
         note_shape(t, hist, true);
+        count_refs(&p.tys[k], hist);
     }
+    let shared = (0..p.tys.len()).filter(|k| p.tys.iter().any(|t| refers_to(t, *k))).count();
+    hist.add(&format!("prog-shared-entries:{}", shared));
     out.case(&req, &obs, &orc);
 }
 
@@ -1227,6 +1350,7 @@ fn note_shape(t: &Ty, hist: &mut Hist, top: bool) {
             });
             note_shape(e, hist, false);
         }
+        Ty::Ref(..) => hist.add("leaf:ref"),
         Ty::Struct(ms) => {
             if top {
                 hist.add(&format!("members:{}", ms.len()));
@@ -1351,6 +1475,22 @@ pub fn run(args: &Args, out: &mut Out) {
                         format!("h={} m={}", one(Rule::HlslSB), one(Rule::Metal))
                     }
                     _ => "bad-request".into(),
+                };
+                out.case(&line, &obs, "ok");
+                continue;
+            }
+            if f.first() == Some(&"C19.raw") && f.len() == 3 {
+                // a hand-written program (`\n` = line break), for probing what the front end builds; not judged and
+                // not modelled (the model answers `unsupported-op`)
+                let src = f[2].replace("\\n", "\n");
+                let real = run_real_lines(&src, f[1], false);
+                let obs = match &real {
+                    Real::Accepted => "ok".to_string(),
+                    Real::AcceptedThenError(e) => format!("ok-then:{}", e),
+                    Real::Unknown(l) => format!("unknown@L{}", show_k(*l)),
+                    Real::Mismatch(l, n) => format!("mismatch@L{} hlsl={}/{} metal={}/{}", show_k(*l), n[0], n[1], n[2], n[3]),
+                    Real::Error(e) => format!("error:{}", e),
+                    Real::Panic(m) => format!("panic:{}", m),
                 };
                 out.case(&line, &obs, "ok");
                 continue;
@@ -1729,5 +1869,264 @@ fn prog_streams(args: &Args, rng: &mut Rng, out: &mut Out, hist: &mut Hist) {
         }
         let style = if rng.chance(1, 2) { 0 } else { rng.next() | 1 };
         run_prog(&mk(*rng.pick(&targets), rng.chance(1, 3), style, tys.clone(), ss), out, hist);
+    }
+    sharing_streams(args, rng, out, hist);
+}
+
+/// `{pre? member post?}`
+fn in_context(pre: &Option<Ty>, member: Ty, post: &Option<Ty>) -> Vec<Ty> {
+    let mut ms = Vec::new();
+    if let Some(p) = pre {
+        ms.push(p.clone());
+    }
+    ms.push(member);
+    if let Some(p) = post {
+        ms.push(p.clone());
+    }
+    ms
+}
+
+/// One compilation with SEVERAL checked element types that share struct definitions: the same struct (empty, small,
+/// nested) is a member of 2-4 checked types and occurs several times inside one type, in different alignment
+/// contexts; several buffers and typed loads in one program, in every order. The layout of a struct must not depend
+/// on what was laid out before it (no state between the queries): a first query whose result is hidden in padding
+/// followed by one where it decides the size / an offset.
+fn sharing_streams(args: &Args, rng: &mut Rng, out: &mut Out, hist: &mut Hist) {
+    let thorough = args.thorough();
+    let sites = all_sites();
+    let targets = ["vk", "dx", "msl"];
+    let site = |k: &str, w: &str| (k.to_string(), w.to_string());
+    let mk = |target: &str, pipe: bool, style: u64, tys: Vec<Ty>, ss: Vec<((String, String), usize)>| Prog {
+        target: target.into(),
+        pipe,
+        style,
+        tys,
+        sites: ss.into_iter().map(|(s, k)| Site { kind: s.0, wrap: s.1, ty: k }).collect(),
+    };
+    let sc = |c: char| Ty::Scalar(c);
+    let pres: Vec<Option<Ty>> =
+        vec![None, Some(sc('h')), Some(sc('u')), Some(Ty::Vec('f', 2)), Some(sc('d')), Some(Ty::Vec('h', 3))];
+    let posts: Vec<Option<Ty>> =
+        vec![None, Some(sc('h')), Some(sc('f')), Some(sc('u')), Some(Ty::Vec('f', 2)), Some(sc('d'))];
+    let mut contexts = Vec::new();
+    for a in &pres {
+        for b in &posts {
+            contexts.push((a.clone(), b.clone()));
+        }
+    }
+    // the pairs of use sites the two checked types sit at: the type that is CHECKED first is the one at the earlier
+    // global, else the one loaded in the function that is type checked first (functions before main)
+    let site_pairs: Vec<((String, String), (String, String))> = vec![
+        (site("sb", ""), site("sb", "")),
+        (site("sb", ""), site("bload", "m")),
+        (site("bload", "m"), site("rwsb", "")),
+        (site("bload", "m"), site("rwbload", "m")),
+        (site("rwbstore", "m"), site("bload", "u")),
+        (site("baload", "u"), site("rwbastore", "u")),
+        (site("sbarr", ""), site("sbc", "")),
+        (site("bload", "t"), site("bload2", "ex")),
+        (site("rwbload", "me"), site("sbtd", "")),
+        (site("bload", "gi"), site("bload", "da")),
+        (site("sbarrtd", ""), site("rwbaload", "p")),
+        (site("rwbstoret", "a"), site("sbbl", "")),
+    ];
+    // S1. one shared sub-struct, two checked structs, every pair of contexts (in both orders by construction);
+    //     S2. the same two contexts inside ONE checked struct. Exhaustive for the empty struct; the other shared
+    //     structs are sampled in the quick tier.
+    let shared_pool: Vec<Ty> = vec![
+        Ty::Struct(vec![]),
+        Ty::Struct(vec![sc('h')]),
+        Ty::Struct(vec![Ty::Vec('f', 2), sc('f')]),
+        Ty::Struct(vec![Ty::Vec('h', 3)]),
+        Ty::Struct(vec![Ty::Struct(vec![])]),
+        Ty::Struct(vec![sc('f'), Ty::Struct(vec![])]),
+        Ty::Struct(vec![sc('d'), sc('h')]),
+        Ty::Struct(vec![Ty::Arr(Box::new(Ty::Struct(vec![])), 2)]),
+        // shared definitions that are not structs: one enum (the same `EnumId`), a typedef'd array, a vector
+        Ty::Enum(false),
+        Ty::Arr(Box::new(sc('h')), 3),
+        Ty::Arr(Box::new(Ty::Struct(vec![sc('f'), Ty::Struct(vec![])])), 2),
+        Ty::Vec('h', 3),
+    ];
+    let mut n = 0usize;
+    for (si, shared) in shared_pool.iter().enumerate() {
+        for (ia, ca) in contexts.iter().enumerate() {
+            for (ib, cb) in contexts.iter().enumerate() {
+                n += 1;
+                if si > 0 && !thorough && !rng.chance(1, 12) {
+                    continue;
+                }
+                let (sa, sb) = site_pairs[(ia * 7 + ib + si) % site_pairs.len()].clone();
+                // a member is the shared struct itself, now and then an array of it
+                let member = |k: usize| {
+                    if (ia + 2 * ib + k) % 9 == 4 {
+                        Ty::Arr(Box::new(Ty::Ref(0, false)), 1 + ((ia + ib) % 3) as u64)
+                    } else {
+                        Ty::Ref(0, false)
+                    }
+                };
+                let a = Ty::Struct(in_context(&ca.0, member(0), &ca.1));
+                let b = Ty::Struct(in_context(&cb.0, member(1), &cb.1));
+                let t = targets[n % 3];
+                let pipe = n % 5 == 0;
+                let style = if n % 4 == 0 { rng.next() | 1 } else { 0 };
+                // now and then the shared struct is a checked element type itself: after the types that contain it
+                // (it was laid out as a member before), between them, or first
+                let mut ss = vec![(sa.clone(), 1), (sb.clone(), 2)];
+                let shared_is_struct = matches!(shared, Ty::Struct(_));
+                if (ia + ib) % 4 == 1 && shared_is_struct {
+                    let sx = site_pairs[(ia + 3 * ib) % site_pairs.len()].0.clone();
+                    ss.insert((ia + ib / 4) % 3, (sx, 0));
+                }
+                run_prog(&mk(t, pipe, style, vec![shared.clone(), a, b], ss), out, hist);
+                let mut both = in_context(&ca.0, member(0), &ca.1);
+                both.extend(in_context(&cb.0, member(1), &cb.1));
+                let mut ss = vec![(sa, 1)];
+                if (ia + ib) % 4 == 3 && shared_is_struct {
+                    ss.insert((ia / 2) % 2, (sb, 0));
+                }
+                run_prog(&mk(t, pipe, style, vec![shared.clone(), Ty::Struct(both)], ss), out, hist);
+            }
+        }
+    }
+    // S3. random type tables with systematic sharing: every entry after the first is built from earlier entries
+    //     (members, arrays of them, several times), 2-4 of the entries are checked at 2-5 sites in random order
+    let n3 = if thorough { 40000 } else { 1200 };
+    for _ in 0..n3 {
+        // scalars only: the two rule sets agree except for what the empty structs do
+        let calm = rng.chance(1, 2);
+        let leaf = |rng: &mut Rng| if calm { Ty::Scalar(*rng.pick(SCALARS)) } else { random_leaf(rng) };
+        let nt = rng.range(3, 6) as usize;
+        let mut tys: Vec<Ty> = Vec::new();
+        tys.push(match rng.below(6) {
+            0 | 1 => Ty::Struct(vec![]),
+            2 => rng.pick(&shared_pool).clone(),
+            3 if !calm => rng.pick(&shared_pool).clone(),
+            3 => Ty::Struct(vec![leaf(rng)]),
+            4 => Ty::Struct(vec![leaf(rng), leaf(rng)]),
+            _ => agreeing_struct(rng),
+        });
+        // (a const-qualified name is only used as a whole element type: an array of it or a variable initialised from
+        // it runs into unrelated diagnostics of the type checker)
+        let plain_entry = |tys: &Vec<Ty>, rng: &mut Rng, j: usize| -> usize {
+            let is_const = |j: usize| {
+                let mut j = j;
+                loop {
+                    match &tys[j] {
+                        Ty::Ref(_, true) => return true,
+                        Ty::Ref(i, false) => j = *i,
+                        _ => return false,
+                    }
+                }
+            };
+            let mut j = j;
+            for _ in 0..8 {
+                if !is_const(j) {
+                    return j;
+                }
+                j = rng.below(j as u64 + 1) as usize;
+            }
+            0
+        };
+        for k in 1..nt {
+            let r = rng.below(20);
+            if r == 0 {
+                tys.push(Ty::Ref(rng.below(k as u64) as usize, rng.chance(1, 2)));
+                continue;
+            }
+            if r == 1 {
+                let j0 = rng.below(k as u64) as usize;
+                let j = plain_entry(&tys, rng, j0);
+                tys.push(Ty::Arr(Box::new(Ty::Ref(j, false)), rng.range(1, 3) as u64));
+                continue;
+            }
+            if r == 2 {
+                // a second small struct to share
+                tys.push(if rng.chance(1, 2) { Ty::Struct(vec![]) } else { Ty::Struct(vec![leaf(rng)]) });
+                continue;
+            }
+            let nm = rng.range(1, 6);
+            let mut ms = Vec::new();
+            let mut has_ref = false;
+            for _ in 0..nm {
+                if rng.chance(2, 5) {
+                    // recent entries more often: chains of nesting
+                    let j = if rng.chance(1, 2) { k - 1 } else { rng.below(k as u64) as usize };
+                    let j = plain_entry(&tys, rng, j);
+                    let mut m = Ty::Ref(j, false);
+                    if rng.chance(1, 5) {
+                        m = Ty::Arr(Box::new(m), rng.range(1, 3) as u64);
+                    }
+                    ms.push(m);
+                    has_ref = true;
+                } else {
+                    ms.push(leaf(rng));
+                }
+            }
+            if !has_ref {
+                let at = rng.below(ms.len() as u64 + 1) as usize;
+                let j0 = rng.below(k as u64) as usize;
+                let j = plain_entry(&tys, rng, j0);
+                ms.insert(at, Ty::Ref(j, false));
+            }
+            tys.push(Ty::Struct(ms));
+        }
+        let xt = expand_table(&tys);
+        let ns = rng.range(2, 5) as usize;
+        let mut ss = Vec::new();
+        for _ in 0..ns {
+            // later entries (the ones that share) more often
+            let k = if rng.chance(2, 3) { rng.range(1, nt as i64 - 1) as usize } else { rng.below(nt as u64) as usize };
+            let top_struct = matches!(xt[k], Ty::Struct(_));
+            let s = loop {
+                let s = if rng.chance(1, 2) {
+                    rng.pick(&sites).clone()
+                } else {
+                    // the sites validation looks at
+                    let p = rng.pick(&site_pairs);
+                    if rng.chance(1, 2) { p.0.clone() } else { p.1.clone() }
+                };
+                let needs_struct = s.1.is_empty() && !["gv", "gs", "st", "cbuf"].contains(&s.0.as_str());
+                if top_struct || !needs_struct {
+                    break s;
+                }
+            };
+            ss.push((s, k));
+        }
+        let style = if rng.chance(2, 3) { 0 } else { rng.next() | 1 };
+        run_prog(&mk(*rng.pick(&targets), rng.chance(1, 4), style, tys, ss), out, hist);
+    }
+    // S4. one struct under several names: itself, a typedef, a typedef of the const-qualified type, a typedef of
+    //     that; two uses through two of the names (the same type id: checked once, at its first use; a different
+    //     one: checked twice), first use inside a function nobody calls included
+    let names: Vec<Ty> = vec![Ty::Ref(0, false), Ty::Ref(0, true), Ty::Ref(2, false)];
+    let alias_sites: Vec<(String, String)> = vec![
+        site("sb", ""), site("rwsb", ""), site("sbc", ""), site("sbarr", ""), site("sbarrtd2", ""), site("cb", ""),
+        site("gv", ""), site("bload", "m"), site("bload", "u"), site("rwbstore", "u"), site("baload", "t"),
+        site("bload", "t0"), site("rwbload", "me"), site("bload2", "ex"), site("rwbaload", "da"),
+    ];
+    let differing = Ty::Struct(vec![sc('f'), Ty::Vec('f', 2)]);
+    let agreeing = Ty::Struct(vec![sc('f'), sc('f')]);
+    let with_empty = Ty::Struct(vec![sc('u'), Ty::Struct(vec![]), sc('u')]);
+    for base in [&differing, &agreeing, &with_empty] {
+        for s1 in &alias_sites {
+            for s2 in &alias_sites {
+                for a in 0..4usize {
+                    for b in 0..4usize {
+                        if !thorough && !rng.chance(1, 18) {
+                            continue;
+                        }
+                        let mut tys = vec![base.clone()];
+                        tys.extend(names.iter().cloned());
+                        let t = *rng.pick(&targets);
+                        run_prog(
+                            &mk(t, rng.chance(1, 4), 0, tys, vec![(s1.clone(), a), (s2.clone(), b)]),
+                            out,
+                            hist,
+                        );
+                    }
+                }
+            }
+        }
     }
 }
